@@ -1159,3 +1159,181 @@ func init() {
 	extend("C02", "R02h: the node installed as a tree's root is nil, created by the assigning call, or loaded under the requested root hash — never an older version's non-root node with its cached (prefixed) hash.", rootFresh("R02h"))
 	extend("C03", "R03d (same rule as R02h): proofs are verified against the bare content hash of the root.", rootFresh("R03d"))
 }
+
+// rejectAtoms lists, in canonical form over f's own parameters ($0.., $recv),
+// the conditions under which f returns an error BEFORE it saves anything: it
+// scans f's top-level statements up to the first one that performs a direct
+// save, collecting `if COND { return …, err }` (as "cond:COND") and
+// `x, err := CALL; if err != nil { return … }` (as "fails:CALL"); a call to a
+// function of the same package that itself saves contributes that function's
+// atoms (with its parameters replaced by the arguments) and ends the scan.
+func rejectAtoms(r *Run, f *core.FuncInfo, direct, composite core.NameSet, depth int) []string {
+	if f == nil || depth < 0 {
+		return nil
+	}
+	c := f.Ctx()
+	strip := func(s string) string { return strings.NewReplacer("(", "", ")", "").Replace(s) }
+	var out []string
+	returnsErr := func(b *ast.BlockStmt) bool {
+		if b == nil || len(b.List) == 0 {
+			return false
+		}
+		rs, ok := b.List[len(b.List)-1].(*ast.ReturnStmt)
+		if !ok || len(rs.Results) == 0 {
+			return false
+		}
+		return !isNilLit(c, rs.Results[len(rs.Results)-1])
+	}
+	var lastCall ast.Expr // the call whose error the next `if err != nil` tests
+	for _, st := range f.Body().List {
+		stop := false
+		var compositeCall *ast.CallExpr
+		ast.Inspect(st, func(x ast.Node) bool {
+			if call, ok := x.(*ast.CallExpr); ok {
+				fn := core.Callee(c.Info, call)
+				if direct.Has(fn) {
+					stop = true
+				}
+				if composite.Has(fn) && compositeCall == nil {
+					compositeCall = call
+				}
+			}
+			return true
+		})
+		if compositeCall != nil {
+			callee := r.W.FuncOf(core.Callee(c.Info, compositeCall))
+			for _, a := range rejectAtoms(r, callee, direct, composite, depth-1) {
+				// substitute the callee's parameters by the caller's arguments, highest index first
+				for i := len(compositeCall.Args) - 1; i >= 0; i-- {
+					a = strings.ReplaceAll(a, fmt.Sprintf("$%d", i), "\x00"+strip(core.CanonExpr(c, compositeCall.Args[i]))+"\x00")
+				}
+				out = append(out, strings.ReplaceAll(a, "\x00", ""))
+			}
+			return out
+		}
+		if stop {
+			return out
+		}
+		switch s := st.(type) {
+		case *ast.AssignStmt:
+			if len(s.Rhs) == 1 {
+				if call, ok := ast.Unparen(s.Rhs[0]).(*ast.CallExpr); ok {
+					lastCall = call
+				}
+			}
+		case *ast.IfStmt:
+			if !returnsErr(s.Body) {
+				continue
+			}
+			if as, ok := s.Init.(*ast.AssignStmt); ok && len(as.Rhs) == 1 {
+				if call, ok := ast.Unparen(as.Rhs[0]).(*ast.CallExpr); ok {
+					lastCall = call
+				}
+			}
+			if b, ok := ast.Unparen(s.Cond).(*ast.BinaryExpr); ok && b.Op == token.NEQ && isNilLit(c, b.Y) && core.IsErrorTyped(c.Info, b.X) && lastCall != nil {
+				out = append(out, "fails:"+strip(core.CanonExpr(c, lastCall)))
+			} else {
+				out = append(out, "cond:"+strip(core.CanonExpr(c, s.Cond)))
+			}
+		}
+	}
+	return out
+}
+
+func init() {
+	extend("C15", "R15b tightened, R15f (added after seeded changes were missed): an operation made of two saving steps is only accepted when every condition on which the later step rejects has been established before the first save (by the operation itself or by the earlier step on the same arguments); "+
+		"the account loaders hand back the stored record exactly as decoded — in particular its stored Addr — because the self-transfer guards compare the Addr of two loaded records to recognise one account under two spellings.",
+		rule("R15f", "loaders return the stored record unmodified", 3, func(r *Run) {
+			pkg := r.W.Pkg("account")
+			if pkg == nil {
+				r.Unresolved("package account")
+				return
+			}
+			n := 0
+			for _, f := range r.W.AllFuncs(pkg) {
+				if f.Lit != nil || f.Obj == nil || !strings.HasPrefix(f.Obj.Name(), "Load") {
+					continue
+				}
+				c := f.Ctx()
+				// the variable decoded into
+				var dec types.Object
+				ast.Inspect(f.Body(), func(x ast.Node) bool {
+					call, ok := x.(*ast.CallExpr)
+					if !ok || len(call.Args) != 2 {
+						return true
+					}
+					if fn := core.Callee(c.Info, call); fn == nil || core.ShortName(fn) != "types.Decode" {
+						return true
+					}
+					if u, ok := ast.Unparen(call.Args[1]).(*ast.UnaryExpr); ok && u.Op == token.AND {
+						if id, ok := ast.Unparen(u.X).(*ast.Ident); ok {
+							dec = c.Info.ObjectOf(id)
+						}
+					}
+					return true
+				})
+				if dec == nil {
+					continue
+				}
+				n++
+				label := fmt.Sprintf("%s returns the decoded record without touching its fields", f.Name)
+				bad := token.NoPos
+				ast.Inspect(f.Body(), func(x ast.Node) bool {
+					as, ok := x.(*ast.AssignStmt)
+					if !ok {
+						return true
+					}
+					for _, l := range as.Lhs {
+						if sel, ok := ast.Unparen(l).(*ast.SelectorExpr); ok {
+							if id, ok := ast.Unparen(sel.X).(*ast.Ident); ok && c.Info.ObjectOf(id) == dec {
+								bad = as.Pos()
+							}
+						}
+					}
+					return true
+				})
+				if bad == token.NoPos {
+					r.OK(label, r.W.Pos(f.Node().Pos()), "no store to a field of the decoded record")
+				} else {
+					r.Fail(label, r.W.Pos(bad), "the loader overwrites a field of the record it loaded: two loads of one stored record (reached through two spellings of its address) no longer compare equal, which the self-transfer guard of Transfer relies on")
+				}
+			}
+			if n < 2 {
+				r.Fail("account: loaders that decode a stored record", "account/", fmt.Sprintf("expected ≥2, found %d", n))
+			}
+		}),
+	)
+}
+
+func init() {
+	addPackages("C15", "common/address")
+	extend("C15", "R15g (added after a seeded change was missed): every address the hex-address classifier accepts is normalised by FormatAddrKey — the normalisation is not narrowed by a further condition (a spelling the chain accepts as one address must map to one storage key).",
+		rule("R15g", "FormatAddrKey normalises every address the classifier accepts", 2, func(r *Run) {
+			fn := "common/address.FormatAddrKey"
+			isEth := func(c *core.Ctx, e ast.Expr) core.Tri {
+				if core.CallAtom([]string{"common/address.IsEthAddress"}, core.IsObj("param:0"))(c, e) {
+					return core.True
+				}
+				return core.Unknown
+			}
+			core.Dominated{Fn: fn, Spec: &core.FlowSpec{Assume: isEth, Calls: []core.CallGuard{called("normalised", "common/address.Driver.FormatAddr", "common/address.FormatEthAddress")}},
+				Sink: core.AnyReturn(), Need: []Fact{"normalised"}, Min: 1}.Check(r)
+			core.HasAtom2(r, fn, "the classifier is consulted", core.CallAtom([]string{"common/address.IsEthAddress"}, core.IsObj("param:0")))
+		}),
+	)
+	extend("C22", "R22f (added after a seeded change was missed): PushTx is reached only after the chain-duplicate check and the eth nonce check have passed, whatever the configuration; the execution pre-check is the only one a configuration switch may skip.",
+		rule("R22f", "the checks in front of PushTx run in every configuration", 3, func(r *Run) {
+			fn := mpm + "checkTxRemote"
+			sp := &core.FlowSpec{Nodes: []core.NodeGen{msgRejectGen()}, Calls: []core.CallGuard{errNil("chain-duplicates-checked", "util.CheckDupTx"), errNil("nonce-checked", mpm+"evmTxNonceCheck")}}
+			core.Dominated{Fn: fn, Spec: sp, Sink: core.CallSink(mpm + "PushTx"), Need: []Fact{"chain-duplicates-checked", "nonce-checked"}, Min: 1}.Check(r)
+			sp2 := &core.FlowSpec{Nodes: []core.NodeGen{msgRejectGen()}, Calls: []core.CallGuard{called("exec-checked", mpm+"checkTxListRemote")}, // a failing check stopping the push is R22b
+				Assume: func(c *core.Ctx, e ast.Expr) core.Tri {
+					if sel, ok := ast.Unparen(e).(*ast.SelectorExpr); ok && sel.Sel.Name == "DisableExecCheck" {
+						return core.False
+					}
+					return core.Unknown
+				}}
+			core.Dominated{Fn: fn, Spec: sp2, Sink: core.CallSink(mpm + "PushTx"), Need: []Fact{"exec-checked"}, Min: 1}.Check(r)
+		}),
+	)
+}
